@@ -222,7 +222,7 @@ func (g *gen) amountVal() uint64 {
 	case 3:
 		return 1 << 63
 	}
-	return uint64(g.n("amt", 1, 1<<40))
+	return uint64(g.n("amthi", 0, 1<<10))<<30 | uint64(g.n("amtlo", 1, 1<<30-1))
 }
 
 // ---- DER encodings ----------------------------------------------------------------------------------
